@@ -84,3 +84,9 @@ pub fn rec(i: usize) -> u8 {
 pub fn fmt_stub(_args: std::fmt::Arguments<'_>) -> String {
     String::new()
 }
+
+/// true iff the SHA recorder is in effect (false under native playback, where the real
+/// SHA-256 runs and recorder-based assertions are skipped)
+pub fn active() -> bool {
+    unsafe { REC_NEW > 0 }
+}
